@@ -1,4 +1,5 @@
 // C12 (Dijkstra distances and tree), C19 (scan bound), C17 (heap preconditions) for findGeodesicsDijkstra.
+//   -DFAMILY=1 (directed): forward graphs i->j (i<j), source 0
 //   -DUND=0/1 DirectedWeightedGraph / UndirectedWeightedGraph behind a counting wrapper; -DEMAX: most list entries in the graph
 // make_heap / pop_heap are modelled at specification level (any arrangement the standard allows), so the result is shown for
 // every conforming heap implementation, and pop_heap's precondition is checked for the comparator it is given.
@@ -36,7 +37,17 @@ extern "C" void harness() {
     const unsigned n = N;
     G g(n);
     unsigned C[NM][NM]; double W[NM][NM];
-#if UND
+#if defined(FAMILY)
+    // forward family on N vertices: every subset of the edges i->j (i<j), lists ascending, source 0 - the shapes in which a
+    // vertex waiting in the queue has its tentative distance lowered through a vertex popped earlier (decrease-key)
+    size_t cnt = 0;
+    for (unsigned i = 0; i < NM; ++i) for (unsigned j = 0; j < NM; ++j) C[i][j] = 0;
+    for (unsigned i = 0; i < NM; ++i) if (i < n) {
+        unsigned vals[VH_LC]; unsigned len = 0;
+        for (unsigned j = 0; j < NM; ++j) if (j > i && j < n && ndb()) { vals[len++] = j; C[i][j] = 1; }
+        vh_list_set(g, i, vals, len); cnt += len;
+    }
+#elif UND
     size_t cnt = vh_build_undirected(g, n, C);
 #else
     size_t cnt = vh_build_directed(g, n, C);
